@@ -67,12 +67,19 @@ func (c17) Describe() runner.Description {
 		Assumptions: []string{"the pending pool is memory-only by design: a restart empties it (model follows)", "the per-block limit (200) is the property text's 'per-block limit'"},
 		Real:        []string{"service/transaction_pool.go", "service/simple_container.go (gmap list map, ring ageing)", "goleveldb executed store over simulated storage", "types transaction codec (executed records)"},
 		Stub:        []string{"chain (the harness plays it: builds headers/receipts)", "ConsensusHelper", "network"},
-		FaultKinds:  []string{"restart", "ticker_fire", "reorg_unmark", "duplicate_add"},
+		FaultKinds:  []string{"restart", "ticker_fire", "reorg_unmark", "duplicate_add", "task_switch"},
 	}
 }
 
 func (c17) Gen(seed uint64, tier string) json.RawMessage {
 	r := simrt.NewRand(seed)
+	if r.Chance(0.4) {
+		b, _ := json.Marshal(struct {
+			Mode string   `json:"mode"`
+			Conc c17cPlan `json:"conc"`
+		}{"conc", c17cGen(r, seed)})
+		return b
+	}
 	p := c17Plan{Seed: seed}
 	ntx := r.Range(4, 14)
 	big := r.Chance(0.06)
@@ -166,7 +173,16 @@ func (m *c17Model) add(h common.Hash) bool {
 
 const c17PerBlock = 200 // "the per-block limit of transactions"
 
+type c17Wrap struct {
+	Mode string   `json:"mode"`
+	Conc c17cPlan `json:"conc"`
+}
+
 func (c17) Exec(raw json.RawMessage, st *simrt.Stats, log *simrt.Log) *simrt.Violation {
+	var w c17Wrap
+	if json.Unmarshal(raw, &w) == nil && w.Mode == "conc" {
+		return c17cExec(w.Conc, st, log)
+	}
 	var p c17Plan
 	if err := json.Unmarshal(raw, &p); err != nil {
 		panic(runner.InfraError{Msg: "bad plan: " + err.Error()})
@@ -428,6 +444,10 @@ func (c17) Exec(raw json.RawMessage, st *simrt.Stats, log *simrt.Log) *simrt.Vio
 }
 
 func (c17) Shrink(raw json.RawMessage) []json.RawMessage {
+	var w c17Wrap
+	if json.Unmarshal(raw, &w) == nil && w.Mode == "conc" {
+		return c17cShrink(w.Conc)
+	}
 	var p c17Plan
 	json.Unmarshal(raw, &p)
 	var out []json.RawMessage
